@@ -144,6 +144,7 @@ BlockWit(m, pre, post) ==
        \cup (IF M = {NoResponse} THEN {"block_kill"} ELSE {})
        \cup (IF Cardinality(I) > 1 THEN {"block_multi"} ELSE {})
        \cup (IF Cardinality(M) > 1 /\ NoResponse \in M THEN {"block_multi_mixed"} ELSE {})
+       \cup (IF Cardinality({i \in I : m.bl[i].st = NoResponse}) > 1 THEN {"block_two_kills"} ELSE {})
        \* observation, not a clause: the code lets the LAST matching rule decide the status
        \cup (IF Cardinality(M \ {NoResponse}) > 1 /\ ~post.killed /\ post.resp # 0
              THEN {IF post.resp = m.bl[CHOOSE i \in I : \A j \in I : j <= i].st THEN "obs:last_rule_wins" ELSE "obs:other_rule_wins"}
@@ -212,7 +213,7 @@ Conf(m, ev) ==
       m1 == IF ev.opt = "stickyauth" THEN [m EXCEPT !.lastM = {}] ELSE m IN   \* what MUST be remembered restarts
   IF inv /\ ev.ok THEN [m EXCEPT !.bad = <<"X07.bad_option_accepted", ev.opt, FormOf(ev)>>]
   ELSE IF ~inv /\ ~ev.ok THEN [m EXCEPT !.bad = <<"X07.good_option_refused", ev.opt, ev.exc>>]
-  ELSE IF ~ev.ok THEN [m1 EXCEPT !.wit = @ \cup {"refused_" \o ev.opt}]       \* the previous setting stays in force
+  ELSE IF ~ev.ok THEN [m1 EXCEPT !.wit = @ \cup {"refused_" \o ev.opt, "refused_form_" \o FormOf(ev)}]   \* old setting stays
   ELSE CASE ev.opt = "stickyauth" -> [m1 EXCEPT !.sa = ev.val, !.wit = @ \cup (IF m.sa.op # "off" THEN {"sticky_reconfigured"} ELSE {})]
          [] ev.opt = "block_list" -> [m1 EXCEPT !.bl = ev.val, !.wit = @ \cup (IF m.bl # <<>> THEN {"block_reconfigured"} ELSE {})]
          [] ev.opt = "anticache" -> [m1 EXCEPT !.ac = ev.val]
